@@ -972,6 +972,16 @@ class Interp:
         if isinstance(base, ClassRef):
             if attr == "__name__":
                 return base.name
+            if attr == "__mro__" and base.name in self.prog.classes:
+                import builtins as _b
+                out = []
+                for c in self.prog.mro(base.name):
+                    if c in self.prog.classes:
+                        out.append(ClassRef(c))
+                    elif isinstance(getattr(_b, c, None), type):
+                        out.append(getattr(_b, c))
+                out.append(object)
+                return tuple(out)
             for c in (self.prog.mro(base.name) if base.name in self.prog.classes else [base.name]):
                 if (c, attr) in self.class_state:
                     return self.class_state[(c, attr)]
